@@ -312,7 +312,7 @@ def with_sanitizers(focus):
 
 # ---------------------------------------------------------------------- C02
 
-C02_FAMILIES = ["tails", "grid", "withlang", "tokens", "mutations", "bytes12"]
+C02_FAMILIES = ["tails", "grid", "withlang", "tokens", "mutations", "bytes12", "chains"]
 C02_PHASES = ["parse", "display", "debug", "encode", "traverse", "clone-eq", "drop"]
 BOMB_FAMILIES = ["nest", "nest-noname", "nest-multi", "set-width", "coll-set", "attr-count", "group-count", "member-count",
                  "value-len", "name-len", "unterminated", "endcoll-flood", "member-flood", "addl-no-attr"]
@@ -417,7 +417,7 @@ def c02_steps(ctx):
     thorough = ctx["tier"] == "thorough"
     jobs = []
     for fam in C02_FAMILIES:
-        n = 16 if (thorough or fam in ("tails", "grid", "mutations", "bytes12")) else 4
+        n = 16 if (thorough or fam in ("tails", "grid", "mutations", "bytes12", "chains")) else 4
         jobs += [(fam, i, n) for i in range(n)]
     # sanitizer layer, started first and joined at the end: quick = one Miri shard over grid / with-language / tokens,
     # thorough = 16 Miri shards (+ mutations) and an ASan build over all families
